@@ -301,7 +301,56 @@ def observe(case):
         return ("exc", type(e).__name__)
 
 
+def observe_moved(case, prime):
+    """the case after the rigid motions case['hist'] applied to the goal region (GoalRegion.translate_rotate) and to
+    the states (State.translate_rotate); prime: the region has answered queries before it was moved"""
+    region = build_region(case)
+    states = [build_state(s) for s in case["states"]]
+    try:
+        if prime:
+            for s in states:
+                region.is_reached(s)
+        for t, a in case["hist"]:
+            region.translate_rotate(np.array(t, dtype=float), float(a))
+            states = [s.translate_rotate(np.array(t, dtype=float), float(a)) for s in states]
+            if prime and len(case["hist"]) > 1:
+                region.is_reached(states[0])
+        if case["op"] == "is_reached":
+            return ("b", bool(region.is_reached(states[0])))
+        init = InitialState(time_step=0, position=np.array([0.0, 0.0]), orientation=0.0, velocity=0.0,
+                            acceleration=0.0, yaw_rate=0.0, slip_angle=0.0)
+        r = PlanningProblem(1, init, region).goal_reached(Trajectory(case["states"][0]["time"], states))
+        return ("g", bool(r[0]), int(r[1]))
+    except Exception as e:  # noqa - compared between the two runs
+        return ("exc", type(e).__name__)
+
+
+def oracle_hist(case):
+    """membership must not depend on whether the goal region answered queries before it was moved"""
+    a, b = observe_moved(case, True), observe_moved(case, False)
+    if a != b:
+        cls = case["states"][0]["cls"]
+        kinds = "+".join(sorted({g["pos"]["k"] for g in case["goals"] if g.get("pos") is not None})) or "no position"
+        return (f"{case['op']}:history:answer after translate_rotate depends on earlier queries ({kinds})",
+                f"{case['op']} answers {a} when the goal region was queried before GoalRegion.translate_rotate{case['hist']} "
+                f"and {b} when it was not ({cls}): {brief(case)}")
+    return None
+
+
+def gen_hist(rng, cases, every=5):
+    out = []
+    for c in cases[::every]:
+        if not judged(c) or any(expected_state(c, s) == "inadmissible" for s in c["states"]):
+            continue
+        moves = [[[dy(rng, -30, 30), dy(rng, -30, 30)], rng.choice([0.0, 0.0, dy(rng, -3, 3), 1.5])]
+                 for _ in range(rng.choice([1, 1, 2]))]
+        out.append(dict(c, hist=moves))
+    return out
+
+
 def oracle(case):
+    if case.get("hist"):
+        return oracle_hist(case)
     if not judged(case):
         return None
     exp = [expected_state(case, s) for s in case["states"]]
@@ -767,6 +816,13 @@ def run(ctx):
                 ctx.fail(r[0], r[1], c)
 
     run_oracle(cases)
+    hist = gen_hist(ctx.rng, cases)
+    for c in hist:
+        ctx.count(c, True, "history:" + kind(c))
+        r = oracle_hist(c)
+        if r:
+            ctx.fail(r[0], r[1], c)
+    ctx.coverage["histories (query, translate_rotate, query) compared with never-queried regions"] = len(hist)
     corr(ctx, cases)
     if (ctx.proof_breaks or ctx.corr_breaks) and not ctx.failures:
         ctx.log(f"proof/correspondence broke ({len(ctx.proof_breaks)}/{len(ctx.corr_breaks)}); widening the search")
